@@ -322,7 +322,9 @@ fn s1_run_inner(s: &S1, seq: &[usize], l: &mut Local) -> Option<(usize, String, 
 
 // (the two `/adv/track*...` rules are fusable regex rules that share a bucket: optimize() fuses
 // them *after* queries may already have compiled the regex of one of them)
-const S2_INITIAL: &[&str] = &["||b1.com^", "@@||b1.com^$script", "/adv/track*pixel", "/adv/track*beacon"];
+// (the two `/adv/trk*` rules share a bucket too but differ in their request type: they are never
+// fused, an optimize() pass moves them all the same)
+const S2_INITIAL: &[&str] = &["||b1.com^", "@@||b1.com^$script", "/adv/track*pixel", "/adv/track*beacon", "/adv/trk*aa$script", "/adv/trk*bb$image"];
 const S2_ADD: &[&str] = &[
     "||b2.com^$important",
     "||r.com^$redirect=a",
@@ -362,6 +364,8 @@ const S2_URLS: &[(&str, &str)] = &[
     ("https://lib.test/x.js?from=d1.com", "script"),
     ("https://lib.test/x.js?from=d2.com", "script"),
     ("https://tr.com/x", "script"),
+    ("https://z.com/adv/trk1aa", "script"),
+    ("https://z.com/adv/trk1bb", "image"),
 ];
 
 #[derive(Clone, Copy, Debug, PartialEq)]
